@@ -1,9 +1,126 @@
+/-
+  ops of group `zonefile` (C23, C24):
+
+    zf  <preludehex> <inputhex> <chunk>            items of the in-memory parser (model ↔ impl)
+    zfc <preludehex> <inputhex> <chunk>            C24 verdict: `ok` / `bad:<why>` / `panic` (spec: `ok`)
+    zfp <preludehex> <inputhex> <chunk> <expected> C23: items; spec = `<expected>` (the record list
+                                                   the harness's pretty-printer rendered)
+    zfv <preludehex> <inputhex> <chunk>            informational: the kind of the final error
+    zf.u32|u16|u8|ipv4|ipv6|class|type|utf8 <hex>  the std / FromStr text parsers (model ↔ impl)
+
+  The parser runs with the context left behind by parsing `<prelude>` from a default context
+  (`Parser::new(prelude)` driven to its end, then `new_for_include(input, None)`): the only way
+  to reach a non-default context through the public API.  `<chunk>`: `0` = the real parser reads
+  from one buffer, `1..7` = through a `Read` that returns at most that many octets per call; a
+  leading `r` selects the `RecordsOnly` iterator.  The model ignores the chunking.
+
+  item syntax: `rec:<line>:<ownerhex>:<ttl>:<class>:<type>:<rdatahex>`,
+  `inc:<line>:<pathhex>:<originhex|none>`, `err@<line>`; joined by `;` (`-` when empty).
+-/
 import QV.Driver.Util
+import QV.Model.ZoneFile.Parser
 
 namespace QV.Driver
-open QV
+open QV QV.ZF
 
-/-- ops of group `zonefile` — stub (not built yet) -/
-def zonefileHandler : Handler := fun _ _ => none
+def showItem : Item → String
+  | .record line r => s!"rec:{line}:{hexOfList r.owner}:{r.ttl}:{r.cls}:{r.ty}:{hexOfList r.rdata}"
+  | .incl line path origin =>
+    s!"inc:{line}:{hexOfList path}:{match origin with | some o => hexOfList o | none => "none"}"
+
+def showYields (ys : List Yield) : String :=
+  if ys.any (fun y => y == .panic) then "panic"
+  else if ys.isEmpty then "ok -"
+  else "ok " ++ ";".intercalate (ys.map fun
+    | .item i => showItem i
+    | .err e => s!"err@{e.line}"
+    | .panic => "panic")
+
+/-- drive a parser to its end, return its final state (`for _ in parser.by_ref() {}`) -/
+def drain (p : Parser) : Parser :=
+  match p.next with
+  | (none, p') => p'
+  | (some (.item _), p') => if p'.st.inp.length < p.st.inp.length then drain p' else p'
+  | (some _, p') => p'
+termination_by p.st.inp.length
+
+def startParser (prelude input : List UInt8) : Parser :=
+  (drain (Parser.new prelude)).newForInclude input none
+
+def runZf (prelude input : List UInt8) (recordsOnly : Bool) : List Yield :=
+  let p := startParser prelude input
+  if recordsOnly then collectRecordsOnly p else collect p
+
+/-- the C24 verdict on a yield list -/
+def verdict (ys : List Yield) : String :=
+  let rec go : List Yield → Option String
+    | [] => none
+    | .panic :: _ => some "panic"
+    | .err _ :: rest => if rest.isEmpty then none else some "bad:yield-after-error"
+    | .item (.incl _ _ origin) :: rest =>
+      if (match origin with | some o => !vNameAll o | none => false) then some "bad:include-origin"
+      else go rest
+    | .item (.record _ r) :: rest =>
+      if !vNameAll r.owner then some "bad:owner"
+      else if r.ty == 10 || r.ty == 41 || r.ty == 250 then some "bad:type"
+      else if !(validate r.cls r.ty r.rdata).isOk then some "bad:rdata"
+      else go rest
+  match go ys with
+  | none => "ok"
+  | some "panic" => "panic"
+  | some s => s
+
+def finalKind (ys : List Yield) : String :=
+  match ys.getLast? with
+  | some (.err e) => "err:" ++ (toString (repr e.kind)).replace "QV.ZF.Kind." ""
+  | some .panic => "panic"
+  | _ => "ok"
+
+def chunkArg (s : String) : Option Bool :=
+  let r := s.startsWith "r"
+  let n := if r then s.drop 1 else s
+  match n.toNat? with
+  | some k => if k ≤ 7 then some r else none
+  | none => none
+
+def showOptNat : Option Nat → String
+  | some n => s!"ok {n}"
+  | none => "err"
+
+def showOptBytes : Option (List UInt8) → String
+  | some b => s!"ok {hexOfList b}"
+  | none => "err"
+
+/-- `str::from_utf8(field)?.parse()` -/
+def viaUtf8 {α} (f : List UInt8 → Option α) (b : List UInt8) : Option α :=
+  if utf8Valid b then f b else none
+
+def zonefileHandler : Handler := fun op args =>
+  match op, args with
+  | "zf", [pre, inp, ch] =>
+    match unhex pre, unhex inp, chunkArg ch with
+    | some p, some i, some ro => some (showYields (runZf p.toList i.toList ro), "-")
+    | _, _, _ => some bad
+  | "zfc", [pre, inp, ch] =>
+    match unhex pre, unhex inp, chunkArg ch with
+    | some p, some i, some ro => some (verdict (runZf p.toList i.toList ro), "ok")
+    | _, _, _ => some bad
+  | "zfp", [pre, inp, ch, expected] =>
+    match unhex pre, unhex inp, chunkArg ch with
+    | some p, some i, some ro => some (showYields (runZf p.toList i.toList ro), "ok " ++ expected)
+    | _, _, _ => some bad
+  | "zfv", [pre, inp, ch] =>
+    match unhex pre, unhex inp, chunkArg ch with
+    | some p, some i, some ro => some (finalKind (runZf p.toList i.toList ro), "-")
+    | _, _, _ => some bad
+  | "zf.u32", [h] => (unhex h).map fun b => (showOptNat (viaUtf8 parseU32 b.toList), "-")
+  | "zf.u16", [h] => (unhex h).map fun b => (showOptNat (viaUtf8 parseU16 b.toList), "-")
+  | "zf.u8", [h] => (unhex h).map fun b => (showOptNat (viaUtf8 parseU8 b.toList), "-")
+  | "zf.ipv4", [h] => (unhex h).map fun b => (showOptBytes (viaUtf8 parseIpv4 b.toList), "-")
+  | "zf.ipv6", [h] => (unhex h).map fun b => (showOptBytes (viaUtf8 parseIpv6 b.toList), "-")
+  | "zf.class", [h] => (unhex h).map fun b => (showOptNat (viaUtf8 parseClass b.toList), "-")
+  | "zf.type", [h] => (unhex h).map fun b => (showOptNat (viaUtf8 parseType b.toList), "-")
+  | "zf.utf8", [h] => (unhex h).map fun b => (if utf8Valid b.toList then "ok 1" else "ok 0", "-")
+  | _, _ => none
 
 end QV.Driver
